@@ -13,7 +13,7 @@ from ..db import LaunchCtx
 from ..report import Finding
 from ..rules import r_pair
 from ..rules.world import array_key
-from ..terms import T, affine, show
+from ..terms import T, affine, show, subterms
 from . import common
 
 INPUT_FORCES = {"Data.qfrc_applied", "Data.qfrc_actuator", "Data.xfrc_applied", "Data.ctrl"}
@@ -112,11 +112,51 @@ def run(db, res, tier):
     why="with {setbits} disabled no launch of {fk} is reachable but its forward/inverse sibling {dk} is still launched: the Euler step and the discrete-time inverse (INVDISCRETE) disagree on whether joint damping is integrated implicitly, so inverse(forward) is no longer the identity",
   )
   res.floor("euler-damping sibling gating obligations", ng, 2)
+  # (4c) sibling guard agreement (Engler: sibling implementations must agree on their argument checks): the kernel that
+  # adds dt * d(damping force)/dv to the inertia diagonal in the Euler step and the kernel that applies the same
+  # correction in the discrete-time inverse evaluate the same derivative function on the same model fields, and neither
+  # skips dofs on a model-determined condition that the other does not have
+  from ..rules.r_ref import _canon
+  from ..terms import pc_literals
+
+  def model_guards(lc, out_root_pred):
+    out = set()
+    memo = {}
+    for a in lc.keval.accesses:
+      if not (a.is_write and out_root_pred(a)):
+        continue
+      for t, pol in pc_literals(a.pc):
+        lds = [x for x in subterms(t) if x.op == "ld"]
+        if lds and all(lc.field(x.args[0]) is not None and lc.field(x.args[0]).owner == "Model" for x in lds):
+          out.add(("" if pol else "not ") + show(_canon(lc, t, memo)))
+    return out
+
+  f_damp = [lc for lc in db.trace_launch_ctxs("forward.euler") if lc.name == "forward._compute_damping_deriv"]
+  i_damp = [lc for lc in inv_lcs if lc.name == "inverse._qfrc_eulerdamp"]
+  if not f_damp or not i_damp:
+    res.error("anchor vanished: forward._compute_damping_deriv / inverse._qfrc_eulerdamp launches")
+  else:
+    gf = model_guards(f_damp[0], lambda a: True)
+    gi = model_guards(i_damp[0], lambda a: True)
+    n += 1
+    res.ob(
+      gf == gi,
+      "eulerdamp|sibling-guards",
+      Finding("R-SIB.1", "inverse._qfrc_eulerdamp|forward._compute_damping_deriv|guard-mismatch", f"the Euler step's damping-derivative kernel writes under model-determined conditions {sorted(gf) or '[]'} but its discrete-time inverse sibling under {sorted(gi) or '[]'}: dofs treated by one and skipped by the other make inverse(forward) differ from the identity", i_damp[0].ev.loc),
+    )
+    cf = {c for c in f_damp[0].keval.calls if "poly_force" in c}
+    ci = {c for c in i_damp[0].keval.calls if "poly_force" in c}
+    n += 1
+    res.ob(bool(cf) and cf == ci, "eulerdamp|sibling-derivative-func", Finding("R-SIB.1", "inverse._qfrc_eulerdamp|forward._compute_damping_deriv|different-derivative", f"the two siblings evaluate different damping-derivative functions ({sorted(cf)} vs {sorted(ci)})", i_damp[0].ev.loc))
+    def model_reads(lc):
+      return {f"{lc.field(a.root).path}" for a in lc.keval.accesses if not a.is_write and lc.field(a.root) is not None and lc.field(a.root).owner == "Model" and not lc.field(a.root).path.startswith("opt.")}
+    n += 1
+    res.ob(model_reads(f_damp[0]) == model_reads(i_damp[0]), "eulerdamp|sibling-model-fields", Finding("R-SIB.1", "inverse._qfrc_eulerdamp|forward._compute_damping_deriv|different-model-fields", f"the two siblings read different damping parameters ({sorted(model_reads(f_damp[0]))} vs {sorted(model_reads(i_damp[0]))})", i_damp[0].ev.loc))
   # (5) INVDISCRETE: qacc is restored
   npair = r_pair.check_pairs(res, db, "inverse.inverse", {"Data.qacc"}, require_recompute=False)
   res.floor("qacc save/restore pair (INVDISCRETE)", npair, 1)
   res.floor("forward/inverse agreement obligations", n, 12)
-  res.rule_text = "R-SIGN.9: every force field that occurs in both forward's qfrc_smooth sum and inverse's qfrc_inverse sum has opposite unit coefficients, qfrc_constraint enters qfrc_inverse with -1, the single remaining +1 term is the buffer support.mul_m filled from Data.qacc before the sum, no input force (applied/actuator) is consumed, every non-input term of qfrc_smooth is present; R-SEQ.3: inverse() runs fwd_position, fwd_velocity, inv_constraint, rne in this order and its constraint forces come from constraint-update kernels the forward solver also uses; R-FLAGS.5: forward's implicit Euler damping and the inverse's discrete-time damping correction are switched off by the same flag assignments (both directions); R-PAIR: with INVDISCRETE the discrete-time qacc is restored on every path"
+  res.rule_text = "R-SIGN.9: every force field that occurs in both forward's qfrc_smooth sum and inverse's qfrc_inverse sum has opposite unit coefficients, qfrc_constraint enters qfrc_inverse with -1, the single remaining +1 term is the buffer support.mul_m filled from Data.qacc before the sum, no input force (applied/actuator) is consumed, every non-input term of qfrc_smooth is present; R-SEQ.3: inverse() runs fwd_position, fwd_velocity, inv_constraint, rne in this order and its constraint forces come from constraint-update kernels the forward solver also uses; R-SIB.1: the Euler step's damping-derivative kernel and its discrete-time inverse sibling evaluate the same derivative function on the same model fields under the same model-determined guards; R-FLAGS.5: forward's implicit Euler damping and the inverse's discrete-time damping correction are switched off by the same flag assignments (both directions); R-PAIR: with INVDISCRETE the discrete-time qacc is restored on every path"
   res.explanation = "Structural necessary conditions of forward/inverse consistency: the two sides of the equation of motion are assembled from the same fields with consistent signs on the outputs of the same stages. Not decided: equality up to solver residual (numeric), the discrete-time correction of discrete_acc."
   res.extra["analysed"] = {"qfrc_smooth_terms": f_terms, "qfrc_inverse_terms": i_terms, "inverse_stage_calls": [c for c in inv_calls if c.count(".") == 1][:14]}
   res.assumptions += ["xfrc_applied enters forward dynamics through qfrc_smooth's later accumulation and is part of what inverse returns"]
